@@ -37,6 +37,12 @@ CONFIGS = {
     'sanx': ('clang++', SANX, True, ['-fsanitize=address,undefined']),
     'p64': ('clang++', PROD + P64, False, []),
     'p32': ('clang++', PROD + P32, False, []),
+    # other code generations of the portable code: no optimisation at all (every load and store of the source happens, in source order -
+    # what latent undefined behaviour such as a broken __restrict promise or a read of a dead temporary depends on) and gcc
+    'p64-O0': ('clang++', ['-O0'] + P64, False, []),
+    'p32-O0': ('clang++', ['-O0'] + P32, False, []),
+    'gcc-p64': ('g++', ['-O2'] + P64, False, []),
+    'gcc-p64-O0': ('g++', ['-O0'] + P64, False, []),
     'p64-san': ('clang++', SAN + P64, False, ['-fsanitize=address,undefined']),
     'p32-san': ('clang++', SAN + P32, False, ['-fsanitize=address,undefined']),
     'tsan': ('clang++', TSAN, True, ['-fsanitize=thread']),
